@@ -65,9 +65,13 @@ func (f *Frame) lookupLocal(name string, st *State, li *loopInfo) (Bound, bool) 
 	var best *cand
 	bestDepth, bestPos := -1, -1
 	var any *cand
+	var lastValue *cand // the last binding to a computed (non-constant) value, in block order
 	consider := func(v ssa.Value, isCell bool, b *ssa.BasicBlock, pos int) {
 		c := &cand{v, isCell}
 		any = c
+		if _, isConst := v.(*ssa.Const); !isConst && !isCell {
+			lastValue = c
+		}
 		if os.Getenv("GOVC_DEBUG_LOOKUP") == name {
 			fmt.Fprintf(os.Stderr, "  cand %s: %v (%T) block %v pos %d\n", name, v, v, b, pos)
 		}
@@ -124,6 +128,11 @@ func (f *Frame) lookupLocal(name string, st *State, li *loopInfo) (Bound, bool) 
 		if k, ok := pick.v.(*ssa.Const); ok && k.IsNil() {
 			if alt := f.altBinding(name); alt != nil {
 				pick = &cand{alt, false}
+			} else if lastValue != nil && f.atExit {
+				// a postcondition is evaluated over the merged returns, where no block is "current": the variable's
+				// last computed binding (typically the phi after the branches that assign it) is what the function
+				// ended with; its defining facts are guarded by its block, so this is sound on paths that skip it
+				pick = lastValue
 			}
 		}
 	}
